@@ -14,7 +14,7 @@ import sys
 sys.unraisablehook = lambda *args: None   # silence GC-time clean-up of abandoned coroutines
 
 import usim
-from usim import collect, first, interval, delay, IntervalExceeded, eternity, Scope, until, time, Flag, Lock, instant, Concurrent, TaskCancelled, \
+from usim import Pipe, UnboundedPipe, collect, first, interval, delay, IntervalExceeded, eternity, Scope, until, time, Flag, Lock, instant, Concurrent, TaskCancelled, \
     TaskClosed, CancelTask, Queue, Channel, StreamClosed, Resources, Capacities, ResourcesUnavailable
 from usim._core.loop import Interrupt, Loop
 from usim._primitives.context import CancelScope, ScopeClosed
@@ -54,6 +54,7 @@ class World:
         self.stream_id.update({id(c): ('ch', i) for i, c in self.chans.items()})
         self.iters = {}       # (activity, channel) -> async iterator of a consumer
         self.ticks = {}       # ticker key -> date of its last tick
+        self.pipe = None
         mk = Resources if reskind == 'res' else Capacities
         self.pools = {i + 1: mk(a=resinit) for i in range(nres)}   # pool id -> supply / open share
         self.npool = nres
@@ -411,6 +412,35 @@ class Puppet:
                 pass
         self.emit('p', op='cstop', c=op['c'])
 
+    # ------------------------------------------------------------ pipe
+    def rat(self, t):
+        """snap a float date to the small rational within the property's floating point tolerance"""
+        from fractions import Fraction
+        fr = Fraction(t).limit_denominator(5000)
+        if abs(float(fr) - t) <= 1e-9 * max(1.0, abs(t)):
+            return [fr.numerator, fr.denominator]
+        return None
+
+    def xemit(self, kind, i):
+        t = self.rat(time.now)
+        if t is None:
+            self.w.log.append({'e': 'xbad', 'a': self.a, 'i': i, 'f': repr(time.now)})
+        else:
+            self.w.log.append({'e': kind, 'a': self.a, 'i': i, 't': t})
+
+    async def op_transfer(self, op):
+        pipe = self.w.pipe
+
+        async def f():
+            self.xemit('xb', op['i'])
+            try:
+                await pipe.transfer(op['v'], throughput=op['l'] or None)
+            except BaseException:
+                self.xemit('xu', op['i'])
+                raise
+            self.xemit('xr', op['i'])
+        await self.leaf(op, f, {'i': op['i'], 'v': op['v'], 'l': op['l']})
+
     # ------------------------------------------------------------ collect / first
     async def work(self, i, dur, fail):
         self.emit('ws', w=i)
@@ -628,10 +658,15 @@ def install_livelock_guard():
     Loop._verif_guard = True
 
 
-def run_program(prog, nroots, nflags=2, nlocks=2, start=0, nqueues=2, nchans=2, nres=2, resinit=2, reskind='res'):
+def run_program(prog, nroots, nflags=2, nlocks=2, start=0, nqueues=2, nchans=2, nres=2, resinit=2, reskind='res',
+                pipe=None, head=None):
     """execute one program on the real usim; returns (events, outcome)"""
     world = World(prog, nroots, nflags, nlocks, nqueues=nqueues, nchans=nchans, nres=nres, resinit=resinit,
                   reskind=reskind)
+    if pipe is not None:
+        world.pipe = UnboundedPipe() if pipe == 0 else Pipe(throughput=pipe)
+    if head is not None:
+        world.log.append(head)
     world.log.append({'e': 'init', 'a': 0, 'res': [world.pools[i + 1].levels.a for i in range(world.nres)]})
     roots = [Puppet(world, a + 1).main() for a in range(nroots)]
     outcome = {'k': 'ok'}
